@@ -401,6 +401,7 @@ def check_eval(ctx):
             run_eval_case(ctx, case)
         # precedence: locals > variables > helpers; undefined names
         check_precedence(ctx, spec, n, origin, rng)
+        check_caller_errstate(ctx, spec, n)
         check_label_slices_vs_indexing(ctx, spec, n, origin)
 
 
@@ -450,6 +451,37 @@ def check_label_slices_vs_indexing(ctx, spec, n, origin):
                     if r[0] != r[1] or r[2] != r[3]:
                         ctx.violation('eval-label-slice-vs-indexing', f'after the span was relabelled in place, eval({text!r}) on {spec.kind} selects {r[0]} / {r[2]}; label indexing selects {r[1]} / {r[3]}', case)
                         return
+
+
+def check_caller_errstate(ctx, spec, n):
+    """eval() returns what NumPy computes for the expression *in the caller's context*: under the caller's np.errstate a fault
+    (division by zero, log of zero, 0/0, overflow) raises FloatingPointError, warns or passes silently exactly as the same
+    expression evaluated directly does."""
+    from fsic.core import VectorContainer
+    base = np.arange(0.0, n)             # starts with a zero
+    c = VectorContainer(spec.make())
+    c.add_variable('X', base.copy())
+    c.add_variable('Y', base[::-1].copy() * 400.0)
+    env = dict(ref_helpers(), X=base.copy(), Y=base[::-1].copy() * 400.0)
+    exprs = [('1 / X', '1 / X'), ('log(X)', '__log(X)'), ('X / X', 'X / X'), ('exp(Y)', '__exp(Y)'), ('X + 1', 'X + 1'), ('lag(X) / X', '__lag(X) / X'), ('dlog(X)', '__dlog(X)')]
+    for es in (None, 'ignore', 'warn', 'raise'):
+        for text, ref_text in exprs:
+            case = {'kind': 'caller-errstate', 'span_kind': spec.kind, 'n': n, 'errstate': es, 'text': text}
+            ctx.evaluation(('caller-errstate', spec.kind, n, es, text), nontrivial=True, sample=case)
+            import contextlib
+            out = []
+            for f in (lambda: eval(ref_text, {'__builtins__': {}}, dict(env)), lambda: c.eval(text, warnings_='always')):
+                with warnings.catch_warnings(record=True) as w, (np.errstate(all=es) if es else contextlib.nullcontext()):
+                    warnings.simplefilter('always')
+                    try:
+                        v = f()
+                        out.append(('ret', repr(np.asarray(v).tolist()), 'warned' if any(issubclass(x.category, RuntimeWarning) for x in w) else 'silent'))
+                    except Exception as e:
+                        out.append(('exc', type(e).__name__, None))
+            ctx.count('eval_calls')
+            if out[0] != out[1]:
+                ctx.violation('eval-value', f'under np.errstate(all={es!r}) eval({text!r}) gives {out[1]}; NumPy evaluating {ref_text!r} directly gives {out[0]}', case)
+                return
 
 
 def check_precedence(ctx, spec, n, origin, rng):
